@@ -402,6 +402,16 @@ class Frame:
             self.ctx.lambdas[key] = (lam, dict(self.env), self.mod, id(self))
             self.env[s.name] = ('lambda', key)
             return FALL
+        if not s.decorator_list and not any(isinstance(x, (ast.Yield, ast.YieldFrom, ast.Nonlocal, ast.Global)) for x in ast.walk(s)):
+            # a local function with a body of several statements: evaluated like a package function when it is called, in a frame whose free names are
+            # looked up in this frame as it is at the time of the call (closure, late binding).  Rebinding of outer names from inside is not modelled
+            # (no nonlocal); in-place updates of outer objects made by the body are not propagated back
+            from .srcmodel import Func
+            key = f'localdef@{self.mod}:{s.lineno}:{s.name}'
+            fn = Func(self.mod, f'{self.fn.qual}.<locals>.{s.name}', s, path=self.fn.path)
+            self.ctx.__dict__.setdefault('local_funcs', {})[key] = (fn, self)
+            self.env[s.name] = ('localfn', key)
+            return FALL
         self.env[s.name] = ('opaque', f'nested function {s.name}')
         return FALL
 
